@@ -348,7 +348,9 @@ Definition bnd_block (forms : nat) (sts : list site) : list string :=
       (combine (seqn m) ps)
     end) classes.
 
-Definition cases (tier : Z) (seed : Z) : list string :=
-  let us := emit_units tier in
+Definition cases_on (us : list (string * ty)) : list string :=
   (flat_map (fun iu : nat * (string * ty) => case_lines (fst iu) (snd iu)) (combine (seqn (List.length us)) us) ++
    bnd_block 1 (flat_map (sites_of 6) us))%list.
+
+(* the one-call cases; the stream c03 prints them together with the histories of Gen/GenC03h.v (Gen/GenC03all.v) *)
+Definition cases (tier : Z) (seed : Z) : list string := cases_on (emit_units tier).
